@@ -61,6 +61,16 @@ func runOne(srvs []*proj.Server, pr *kit.Prepared, c kit.Case, p *plan.Plan, npa
 		if f := oracle.Compare(s.P.Vec+" "+what, ref, resp, e.Keys("R"), e.Keys("D")); f != nil {
 			return f
 		}
+		if npanics > 0 {
+			// the same value can be reached through several aliases: one panic per failing position
+			// the reference reports
+			npanics = 0
+			for _, e := range ref.Errors {
+				if e.Class == "panic" || e.Class == "foreign" {
+					npanics++
+				}
+			}
+		}
 		if npanics >= 0 && resp.Recovers != npanics {
 			return vfrun.Failf("recover.count", "[%s %s] recover hook ran %d times for %d panics", s.P.Vec, what, resp.Recovers, npanics)
 		}
